@@ -98,6 +98,8 @@ class InterpreterBase:
         # If it was part of a if-clause, it is used to temporally override the
         # current meson version target within that if-block.
         self.tmp_meson_version: T.Optional[mesonlib.Range[mesonlib.Version]] = None
+        # The version_compare() call that set tmp_meson_version
+        self.tmp_meson_version_node: T.Optional[mparser.BaseNode] = None
 
     def handle_meson_version_from_ast(self) -> None:
         # do nothing in an AST interpreter
@@ -305,6 +307,16 @@ class InterpreterBase:
         self.tmp_meson_version = None
         return self._holderify(v.operator_call(MesonOperator.NOT, None))
 
+    @staticmethod
+    def _conjuncts(node: mparser.BaseNode) -> T.Iterator[mparser.BaseNode]:
+        if isinstance(node, mparser.ParenthesizedNode):
+            yield from InterpreterBase._conjuncts(node.inner)
+        elif isinstance(node, mparser.AndNode):
+            yield from InterpreterBase._conjuncts(node.left)
+            yield from InterpreterBase._conjuncts(node.right)
+        else:
+            yield node
+
     def evaluate_if(self, node: mparser.IfClauseNode) -> T.Optional[Disabler]:
         for i in node.ifs:
             # Reset self.tmp_meson_version to know if it gets set during this
@@ -321,6 +333,10 @@ class InterpreterBase:
             if not isinstance(res, bool):
                 raise InvalidCode(f'If clause {result!r} does not evaluate to true or false.')
             prev_meson_version = mesonlib.project_meson_versions[self.subproject]
+            if self.tmp_meson_version and not any(n is self.tmp_meson_version_node for n in self._conjuncts(i.condition)):
+                # Only a version_compare() the condition cannot hold without narrows the range
+                # (not one inside a ternary, an argument, a method chain on its result, ...)
+                self.tmp_meson_version = None
             if self.tmp_meson_version and isinstance(prev_meson_version, mesonlib.Range):
                 always = prev_meson_version.always(self.tmp_meson_version)
                 if always is not None:
